@@ -23,14 +23,9 @@ BStep(op, r, s) ==
       val == c # 0 IN
   /\ bst' = s
   /\ CASE op[1] = "resize" ->
-            LET exp == IF ~Ok(r) THEN bs
-                       ELSE IF a <= m.size THEN Put(a, {x \in m.bits : x < a})
-                       ELSE Put(a, m.bits \cup (IF val THEN m.size .. a - 1 ELSE {}))
-                act == [size |-> a, bits |-> Range(Proj(s, i).bits)]
-            IN IF Ok(r) /\ a > m.size /\ m.size % 64 # 0 /\ act # exp[i]
-                  /\ KnownFinding("C18K_bitset_resize_grow_from_unaligned_size")
-                 THEN bs' = [bs EXCEPT ![i] = act]       \* known finding: follow the real (wrong) contents
-                 ELSE bs' = exp
+            bs' = IF ~Ok(r) THEN bs
+                  ELSE IF a <= m.size THEN Put(a, {x \in m.bits : x < a})
+                  ELSE Put(a, m.bits \cup (IF val THEN m.size .. a - 1 ELSE {}))
        [] op[1] = "append" -> bs' = IF Ok(r) THEN Put(m.size + 1, m.bits \cup (IF a # 0 THEN {m.size} ELSE {})) ELSE bs
        [] op[1] = "set" -> a < m.size /\ bs' = Bits(IF val THEN m.bits \cup {a} ELSE m.bits \ {a})
        [] op[1] = "clear_bit" -> a < m.size /\ bs' = Bits(m.bits \ {a})
